@@ -140,6 +140,8 @@ func zero(t types.Type) V {
 			return Bool{}
 		case types.String, types.UntypedString:
 			return Str{}
+		case types.Float64, types.Float32, types.UntypedFloat:
+			return Float{}
 		case types.UnsafePointer:
 			return Ptr(nil)
 		case types.UntypedNil:
